@@ -96,7 +96,7 @@ theorem positions_of_consistent (s : Sequence) (h : s.checkConsistency = .ok tru
     · split at h
       · cases h
       · split at h
-        · cases h
+        · split at h <;> cases h
         · split at h
           · cases h
           · simpa using h
@@ -329,7 +329,7 @@ theorem consistent_iff (s : Sequence) :
         · cases h
         · rename_i hall
           split at h
-          · cases h
+          · split at h <;> cases h
           · rename_i chans hch
             split at h
             · cases h
